@@ -756,11 +756,11 @@ def serialize_dict(
 
     capitalize_key = int(capitalize_key)
     if not capitalize_key:
-        capitalize_key = lambda s: s
+        transform_key = lambda s: s
     elif capitalize_key > 0:
-        capitalize_key = lambda s: s.upper() if isinstance(s, str) else s
+        transform_key = lambda s: s.upper() if isinstance(s, str) else s
     else:
-        capitalize_key = lambda s: s.lower() if isinstance(s, str) else s
+        transform_key = lambda s: s.lower() if isinstance(s, str) else s
 
     if isinstance(input_dict, dict):
         for key,value in input_dict.items():
@@ -771,7 +771,7 @@ def serialize_dict(
 
             serialized_value = serialize_dict(value, delimiter, equal_tag, generate_empty, generate_none, capitalize_key, capitalize_value, level+1)
 
-            buffer_str += capitalize_key(key)
+            buffer_str += transform_key(key)
             if not serialized_value:
                 if serialized_value is None and generate_none:
                     buffer_str += equal_tag
